@@ -54,6 +54,9 @@ CLAIMED = {
  "C10": ("per-lock interprocedural lock-state dataflow (six auxiliary locks); must-pass-through on go/cfg; table agreement for endpoint protocols",
          "queue discipline: every access to a subscriber queue, the live-fence stack and buffers, the pub/sub hub table, the follower publish queue and the hook state holds the lock guarding it; the queue index advances under the exclusive server lock; all writes to a subscriber connection go through one closure holding the write lock; a failed webhook send re-inserts the unsent tail (keys, values and ttls from the same index) before giving up; the endpoint manager's mutex is released on every reachable exit",
          "delivery under endpoint failure patterns and exactly-once at the receiver"),
+ "C16": ("zone (difference-bound) abstract interpretation over go/cfg for index/slice bounds, with call-site preconditions, return summaries and verified type invariants; must-pass-through rules for pool pairing; dominance rules for reply writers",
+         "'malformed input never crashes the server or affects other connections': every index and slice on strings, argument vectors, byte buffers and arrays in internal/server and internal/glob is proved within bounds on every path (about 450 sites by the analysis, the rest by reviewed exemptions naming one construct or one server-internal unit each); messages are never given an empty argument vector; reply builders that dereference their object are only called with a definitely assigned one; every pooled Lua state is released on every exit, including error returns; handleInputCommand writes exactly one reply per path; every dispatcher recovers the deadline panic",
+         "independence of the replies from TCP segmentation (behaviour of the carry-over buffers over all splits)"),
 }
 
 NOT_APPLICABLE = {
